@@ -2939,6 +2939,11 @@ impl Field {
         if offset_a != offset_b {
             return false;
         }
+        if self.name != other.name {
+            // Two fields of the same type at the same offset are still not the same field,
+            // if one has been removed and another one added in a later version.
+            return false;
+        }
         self.value.layout_compatible(&other.value)
     }
 }
